@@ -13,7 +13,7 @@ import json, jsonschema, glob
 sch=json.load(open('/root/.vp/EVIDENCE.schema.json'))
 bad=0
 for c in json.load(open('MANIFEST.json'))['checks']:
-    f=c['evidence_file']
+    f='evidence/'+c['property_id']+'.json'   # this tree's copy (MANIFEST names /verif/evidence/...)
     try:
         e=json.load(open(f)); jsonschema.validate(e, sch)
         cov=e['coverage']
